@@ -172,6 +172,47 @@ def matches_known(kn, pid, label, case_lines):
         if s and not any(x in text for x in s): return False
     return True
 
+# ------------------------------------------------------------------ extra step of C20: threads and process-wide objects
+def extra_threads(pid, tier, seed, tag):
+    """returns (violations [(why, replay_text)], info dict)"""
+    viol = []; info = {}
+    rc, out = sh("make -C harness -j16 %s/build/thread_stress REPO=/repo B=%s/build" % (V, V), timeout=3600)
+    if rc != 0: return [("the thread-stress binary does not build: " + out[-300:], out)], {"thread_stress": "build failed"}
+    # (1) writable process-wide objects that nobody reviewed
+    allow = set()
+    for l in open(os.path.join(V, "tools", "globals_allow.txt")):
+        if l.strip() and not l.startswith("#"): allow.add(l.split("\t")[0].strip())
+    rc, out = sh("for f in build/core/*.o build/addons/*/*.o; do nm -C --defined-only $f | grep ' [BbDdCc] ' | sed \"s#^#$f #\"; done")
+    syms = []
+    for l in out.splitlines():
+        t = l.split(None, 3)
+        if len(t) < 4: continue
+        name = t[3].strip()
+        if name.startswith(("guard variable", "std::__ioinit", "__dso_handle")): continue
+        syms.append((t[0], name))
+    new = sorted({(f, n) for (f, n) in syms if n not in allow})
+    info["process_wide_objects"] = len({n for _, n in syms}); info["unreviewed_objects"] = ["%s: %s" % x for x in new]
+    if new:
+        viol.append(("writable process-wide object(s) not on the reviewed list: " + "; ".join(n for _, n in new)[:300],
+                     "# unreviewed writable process-wide objects (tools/globals_allow.txt)\n" + "\n".join("# %s: %s" % x for x in new) + "\n"))
+    # (2) concurrent use of private instances under the thread sanitizer
+    runs = [(8, 300, seed), (16, 200, seed + 1)] if tier == "quick" else [(8, 400, seed + k) for k in range(6)] + [(32, 150, seed + 100)]
+    lua = "/repo/addons/luamodel/samplemodel.lua"
+    nvals = 0; races = 0
+    for (nt, rounds, sd) in runs:
+        cmd = "TSAN_OPTIONS='halt_on_error=0 exitcode=66' timeout 900 %s/build/thread_stress %d %d %d %s" % (V, nt, rounds, sd, lua)
+        rc, out = sh(cmd, timeout=1000)
+        m = re.search(r"values (\d+) mismatching_threads (\d+)", out)
+        if m: nvals += int(m.group(1))
+        nr = out.count("WARNING: ThreadSanitizer")
+        races += nr
+        if rc != 0 or nr or not m or int(m.group(2)) != 0:
+            viol.append(("concurrent use of private instances: %s" % ("data race reported by the thread sanitizer" if nr else ("results differ from running alone" if m else "the stress run failed")),
+                         "# replay: " + cmd + "\n" + "\n".join("# " + x for x in out.splitlines()[:60]) + "\n"))
+            break
+    info["thread_runs"] = len(runs); info["thread_values_compared"] = nvals; info["sanitizer_reports"] = races
+    return viol, info
+
 # ------------------------------------------------------------------ main
 def main():
     args = sys.argv[1:]
@@ -293,6 +334,15 @@ def main():
             nviol += 1
             lines_out.append("VIOLATION property=%s replay=%s no-failing-input-found" % (pid, path))
 
+    extra_info = {}
+    if cfg.get("extra") == "threads":
+        ev_list, extra_info = extra_threads(pid, tier, seed, tag)
+        for (why, text) in ev_list:
+            h = hashlib.sha1(text.encode()).hexdigest()[:10]
+            path = os.path.join(V, "replays", "%s-%s.txt" % (pid, h))
+            open(path, "w").write("# property %s: %s\n%s" % (pid, why, text))
+            nviol += 1
+            lines_out.append("VIOLATION property=%s replay=%s%s" % (pid, path, "" if "concurrent use" in why else " no-failing-input-found"))
     for what, cnt in known_hit.items(): print("KNOWN-FINDING: property=%s %s (%d case(s) in this run)" % (pid, what, cnt))
     for l in lines_out: print(l)
     if nviol > len(lines_out): print("(%d further violating cases not written out)" % (nviol - len(lines_out)))
@@ -332,7 +382,7 @@ def main():
             "same_pairs_checked": rep.get("same_checked", 0),
             "discarded_ill_conditioned": rep["discarded_ill_conditioned"], "max_condition_estimate": rep["max_cond"],
             "input_distribution": dist, "known_findings_hit": known_hit,
-            "coqchk": pr.get("coqchk", "not run in this tier"),
+            "coqchk": pr.get("coqchk", "not run in this tier"), "extra": extra_info,
         },
         "assumptions": cfg.get("assumptions", []) + ["field / trigonometric / derivation laws are Section hypotheses of the theorems (FieldLaws, TrigLaws), instantiated at R and Qc"],
         "wall_s": round(time.time() - t0, 2), "violations": nviol,
